@@ -29,6 +29,10 @@ type ProxyCase struct {
 	R       model.SearchReq   `json:"r"`
 	Style   model.RenderStyle `json:"style"`
 	Aggs    []model.AggSpec   `json:"aggs,omitempty"`
+	// Page: a second fetch of the finished search asks for Size ids from Offset on, as a
+	// synchronous search with these paging parameters would return them
+	PageOffset int `json:"page_offset,omitempty"`
+	PageSize   int `json:"page_size,omitempty"`
 }
 
 func genProxy(t *rapid.T) ProxyCase {
@@ -47,6 +51,8 @@ func genProxy(t *rapid.T) ProxyCase {
 	c.R.Limit = 1 << 20
 	c.Style = gen.Style(t)
 	c.Aggs = gen.AggSpecs(t, 2)
+	c.PageOffset = rapid.IntRange(0, len(c.Corpus)+1).Draw(t, "pageoffset")
+	c.PageSize = rapid.IntRange(0, len(c.Corpus)+1).Draw(t, "pagesize")
 	return c
 }
 
@@ -113,6 +119,19 @@ func runProxy(c ProxyCase) (evid.Result, error) {
 	got := harness.FromSeqIDs(fr.QPR.IDs)
 	if !model.EqualIDs(got, want.IDs) {
 		return res, evid.Failf("ids-differ", "[proxy async] %q: got %v want %v", text, head(got), head(want.IDs))
+	}
+	if c.PageSize > 0 {
+		pg, err := cl.Ing.FetchAsyncSearchResult(ctx, search.FetchAsyncSearchResultRequest{ID: start.ID, Size: c.PageSize, Offset: c.PageOffset})
+		if err != nil {
+			return res, evid.Failf("fetchasync-error", "%q page: %v", text, err)
+		}
+		lo, hi := min(c.PageOffset, len(want.IDs)), min(c.PageOffset+c.PageSize, len(want.IDs))
+		if got := harness.FromSeqIDs(pg.QPR.IDs); !model.EqualIDs(got, want.IDs[lo:hi]) {
+			return res, evid.Failf("page-differs", "[proxy async] %q: fetch with offset %d size %d of %d ids: got %v want %v", text, c.PageOffset, c.PageSize, len(want.IDs), head(got), head(want.IDs[lo:hi]))
+		}
+		if c.PageOffset > 0 {
+			res.Labels = append(res.Labels, "page-offset>0")
+		}
 	}
 	if c.R.Interval > 0 && !harness.EqualHist(harness.HistOf(&fr.QPR), want.Hist) {
 		return res, evid.Failf("hist-differs", "[proxy async] %q: got %s want %s", text, harness.FmtHist(harness.HistOf(&fr.QPR)), harness.FmtHist(want.Hist))
